@@ -79,9 +79,15 @@ def evaluate(spec):
         return {"status": "disconnected", "n": n, "fails": [], "counts": counts}
     rng = np.random.default_rng(spec["seed"])
     E = rng.normal(0.0, 2.0, n)
+    # "arbitrary per-cell energies": every third case carries a large common offset (GROMACS potentials of big systems)
+    offset = [0.0, 0.0, -45000.0, 3700.0, 0.0, 45000.0][int(spec["seed"][-1] if isinstance(spec["seed"], (list, tuple)) else spec["seed"]) % 6]
+    E = E + offset
     T = float(rng.uniform(200.0, 400.0))
     D = float(rng.uniform(0.1, 3.0))
     with quiet():
+        # the geometry is loaded once and used twice (another diffusion constant first): the second rate matrix must not
+        # depend on the first use of the same arrays
+        SQRA(E.copy(), V.copy(), H, S).get_rate_matrix(2.0 * D, T)
         Q = SQRA(E.copy(), V.copy(), H, S).get_rate_matrix(D, T)
     Qd = Q.toarray()
     normQ = np.abs(Qd).max()
